@@ -103,7 +103,7 @@ template <int C, int R, typename T> static void op_elementwise(const Case& c, Ou
   (void)bz;
 }
 // ------------------------------------------------------------------ shape conversions and constructors
-template <int C, int R, int C2, int R2, typename T> static bool conv_one(const glm::mat<C2, R2, T>& S, const Ref& s, Outcome& o) {
+template <int C, int R, glm::length_t C2, glm::length_t R2, typename T> static bool conv_one(const glm::mat<C2, R2, T>& S, const Ref& s, Outcome& o) {
   glm::mat<C, R, T> D(S);
   for (int cc = 0; cc < C; ++cc) for (int r = 0; r < R; ++r) { i64 want = (cc < C2 && r < R2) ? s.a[cc][r] : (cc == r ? 1 : 0);
     if (!eqv<T>(D[cc][r], want)) { o.res((uint64_t)(i64)D[cc][r], (uint64_t)(((C * 4 + R) << 8) | (cc * 4 + r))); o.exp((uint64_t)want); char m[160]; std::snprintf(m, sizeof m, "mat%dx%d(mat%dx%d): must copy the overlapping block and pad with the identity", C, R, C2, R2); o.bad(1, m); return false; } }
